@@ -693,6 +693,7 @@ send_newkeys = Spec(
     ensures=[('rfc4253-7.2-letters-and-directions', _c02.newkeys_keys)],
     raises={'UnicodeDecodeError': True, 'AssertionError': lambda c: z3.BoolVal(False)})
 send_newkeys.model_timeout_ms = 2500
+send_newkeys.confirm_attempts = 24
 
 # ------------------------------------------------------------------ sending side: what the sender authenticates
 # the four encrypt_packet contracts (RFC 4253 6.4 / OpenSSH etm / RFC 5647 / chacha20-poly1305) are the C02 ones,
